@@ -163,6 +163,7 @@ def _job(j):
         mn, script, obs = shrink(cfg, choices, None, letters, conn_letters, clause)
         again = monitor(cfg, run_single(cfg, Ctx(mn), letters, conn_letters, fp=False, prior=prior_of(cfg.get('prior', 'none'))))
         cell = f"{cfg['transport']}/ka={int(cfg['ka'])}" + (f"/after:{cfg['prior']}" if cfg.get('prior', 'none') != 'none' else '') + \
+            (f"/host={cfg['host']}" if cfg.get('host') else '') + \
             ('/drained' if cfg.get('drain') else '')
         key = f"{clause}/{cell}/{cause_of(script)}"
         if not any(c == clause for c, _ in again):
@@ -224,6 +225,12 @@ def run(tier, seed, rep):
     for tr in ('udp', 'tcp'):
         for ka in (False, True):
             jobs.append((dict(transport=tr, ka=ka, T=1, R=1, cmd='read', default_logging=True), 'product', 2, letters_of(tr), ['ok'], None))
+    # the inverter configured by name / by a non-canonical spelling of its address (what recvfrom() reports is the resolved
+    # address, never the configured string)
+    for tr in ('udp', 'tcp'):
+        for ka in (False, True):
+            for host in ('inverter.local', '10.0.2'):
+                jobs.append((dict(transport=tr, ka=ka, T=1, R=1, cmd='read', host=host), 'product', 2, letters_of(tr), ['ok'], None))
     # non-initial states
     for tr in ('udp', 'tcp'):
         for ka in (False, True):
